@@ -1,3 +1,5 @@
+CONSTANTS
+  Ablate = {}
 SPECIFICATION TraceSpec
 POSTCONDITION TraceDone
 CHECK_DEADLOCK FALSE
